@@ -56,7 +56,9 @@ Definition num_matches (m : option num) (printed : str) (want_int_syntax : bool)
   match m, parse_number printed with
   | Some a, Some b =>
       close (nv a) (nv b) && str_eqb (nu a) (nu b)
-      && (if want_int_syntax && is_integral (nv a) then is_int_syntax printed else true)
+      && (* an integral printed value carries no fractional part ("3", not "3.0"); float noise such as
+            99.99999999999999 for an exact 100 is within the property's 1e-9 tolerance and not integral *)
+         (if want_int_syntax && is_integral (nv b) then is_int_syntax printed else true)
   | _, _ => false
   end.
 
